@@ -28,14 +28,14 @@ def tree_hash(paths, exts=None):
     h = hashlib.sha256()
     for root in paths:
         if os.path.isfile(root):
-            h.update(root.encode()); h.update(open(root, "rb").read()); continue
+            h.update(os.path.basename(root).encode()); h.update(open(root, "rb").read()); continue
         for dp, dns, fns in sorted(os.walk(root)):
             dns[:] = sorted(d for d in dns if d not in ("target", ".git", ".zinoma", "__pycache__", ".build", ".cache"))
             for fn in sorted(fns):
                 if exts and not fn.endswith(tuple(exts)):
                     continue
                 p = os.path.join(dp, fn)
-                h.update(p.encode())
+                h.update(os.path.relpath(p, root).encode())
                 try:
                     h.update(open(p, "rb").read())
                 except OSError:
